@@ -102,7 +102,7 @@ func propGen(prop, tier string, idx int) GenOpts {
 		o.SchedUserOnly = 400
 	case "C10":
 		o.PDisposable = 800
-		o.PMulti, o.PResult, o.PVoid = 150, 150, 100
+		o.PMulti, o.PResult, o.PVoid = 150, 150, 220
 		conc(1, 3)
 		if seq {
 			conc(1, 1)
